@@ -68,6 +68,8 @@ pub fn coalesce(expression: Expression, identifiers: &HashMap<String, Expression
 }
 
 pub fn matrix(expression: Expression) -> Expression {
+    #[cfg(feature = "verif")]
+    use crate::verif::PermMap as HashMap;
     match expression {
         Expression::BooleanGroup(BoolSym::And, expressions) => {
             let mut scratch = vec![];
@@ -618,6 +620,8 @@ fn shake_0(expression: Expression) -> Expression {
 }
 
 fn shake_1(expression: Expression) -> Expression {
+    #[cfg(feature = "verif")]
+    use crate::verif::PermMap as HashMap;
     match expression {
         // TODO: Due to limitations with how we handle accessing array data it is not possible
         // to enable this optimisation yet... There is no way to say match all within an array of
